@@ -41,7 +41,9 @@ ARITH = (ir.Add, ir.Subtract, ir.Multiply)
 def leaves(full=True):
     out = [
         (ir.IntegerLiteral(0), INT), (ir.IntegerLiteral(1), INT), (ir.IntegerLiteral(2), INT),
+        (ir.IntegerLiteral(-1), INT),  # what subtraction desugars to
         (ir.FloatLiteral(0.0), FLT), (ir.FloatLiteral(1.0), FLT), (ir.FloatLiteral(2.5), FLT),
+        (ir.FloatLiteral(-1.0), FLT),
         (ir.BooleanLiteral(True), BOOL), (ir.BooleanLiteral(False), BOOL),
         (XI, INT), (YI, INT), (XF, FLT), (XB, BOOL),
     ]
